@@ -40,7 +40,7 @@ def rel_check(prop, prefixes, fams, rels, tier, sample=None, text_rule=None, ass
     # a solver that raises on a configuration of the campaign is judged by C20 (FIN.raised), not here
     if errors:
         print("# note: %d pairs not evaluated because a solver raised (judged by C20): e.g. %s" % (len(errors), errors[0][1].splitlines()[0][:120]))
-    tv = core.validate_trace("TraceRel", "TraceRel.cfg", events, prop)
+    tv = core.validate_trace("TraceRel", "TraceRel.cfg", events, prop, boundary=lambda e: True)
     if not tv["accepted"]:
         raise tlc.TLCError("relation trace not consumed")
     hits = 0
